@@ -27,7 +27,9 @@ impl ReplayReport {
                "violations": self.violations, "drift": self.drift, "samples": self.samples})
     }
     fn viol(&mut self, v: Value) {
-        if self.violations.len() < 50 {
+        // at most 50 per kind: each kind states a different clause, and a check keeps only the kinds it owns
+        let k = v["kind"].as_str().unwrap_or("").to_string();
+        if self.violations.iter().filter(|w| w["kind"].as_str().unwrap_or("") == k).count() < 50 {
             self.violations.push(v);
         }
     }
@@ -176,13 +178,38 @@ pub fn replay_evaluator(lines: &[Value], seed: u64) -> ReplayReport {
             let o = ev_query(&mut ev, x);
             let (did, _, dok, dpan) = observe_direct(&pw, x);
             let panicked = pan.is_some() || o.panic.is_some();
-            let contract_ok = !panicked
-                && (xr == NAN_RANK || (o.seg == sel && o.arg == x.to_bits() && o.val_ok && did == sel && dok && dpan.is_none()));
-            if !contract_ok {
-                rep.viol(json!({"kind":"evaluator","embedding":e.name,"ends_rank":ends,"hist_rank":hist,"x_rank":xr,
+            // one verdict per clause, each tagged with the clause it states (the check keeps the clauses of ITS property):
+            //   evaluator-panic                 a query panicked                                   (C03, C16)
+            //   evaluator-vs-direct             answer differs from Piecewise::evaluate's          (C03: "exactly the bits
+            //                                   that direct evaluation returns")
+            //   evaluator-vs-direct-after-nan   the same, in a history that contains a NaN query   (C16)
+            //   direct-vs-model                 Piecewise::evaluate differs from Select            (C02's clause; C02 has its
+            //                                   own replay, so no check of this replay owns it)
+            let after_nan = hist.iter().any(|&h| h == NAN_RANK);
+            let mut bad: Vec<&str> = vec![];
+            if panicked {
+                bad.push("evaluator-panic");
+            } else if xr != NAN_RANK {
+                if dpan.is_some() || !(o.seg == did && o.arg == x.to_bits() && o.val_ok && dok) {
+                    bad.push("evaluator-vs-direct");
+                    if after_nan {
+                        bad.push("evaluator-vs-direct-after-nan");
+                    }
+                }
+                if did != sel {
+                    bad.push("direct-vs-model");
+                }
+            }
+            for kind in &bad {
+                rep.viol(json!({"kind":kind,"embedding":e.name,"ends_rank":ends,"hist_rank":hist,"x_rank":xr,
                     "ends":fe.iter().map(|&v| hex(v)).collect::<Vec<_>>(),"x":hex(x),
                     "expected_piece":sel,"observed_piece":o.seg,"direct_piece":did,"arg_bits_ok":o.arg==x.to_bits(),
-                    "panic":o.panic.or(pan)}));
+                    "panic":o.panic.clone().or(pan.clone())}));
+            }
+            if !bad.is_empty() {
+            } else if xr != NAN_RANK && o.seg != sel {
+                // evaluator and direct evaluation agree with each other but not with the model
+                rep.drf(json!({"kind":"evaluator-vs-model","embedding":e.name,"ends_rank":ends,"hist_rank":hist,"x_rank":xr,"expected_piece":sel,"observed_piece":o.seg}));
             } else {
                 let want_last = e.arg(lastr).to_bits();
                 let shape_ok = o.state.0 == off
@@ -353,18 +380,30 @@ pub fn random_ends(rng: &mut Rng, n: usize) -> Vec<f64> {
 /// Random evaluator sessions (random walks over the alphabet plus arbitrary floats).
 pub fn drive_evaluator(seed: u64, sessions: usize, with_nan: bool, sink: &mut Sink) {
     let mut rng = Rng::new(seed);
+    let mut kept: Option<(Piecewise<Probe>, Vec<f64>)> = None;
     for _ in 0..sessions {
-        let n = if rng.below(20) == 0 { rng.long_len() } else { 1 + rng.size(4, 40, 8) as usize };
-        let ends = random_ends(&mut rng, n);
-        let pw = probe_pw(&ends);
+        // a fresh object, or (one session in three) the previous object edited IN PLACE with the previous session's
+        // queries asked again of a new evaluator: nothing may survive from the evaluator that is gone
+        let (pw, replay) = match kept.take() {
+            Some((mut p, q)) if rng.below(3) == 0 => {
+                edit_in_place(&mut rng, &mut p, false);
+                (p, if rng.bool() { q } else { vec![] })
+            }
+            _ => {
+                let n = if rng.below(20) == 0 { rng.long_len() } else { 1 + rng.size(4, 40, 8) as usize };
+                (probe_pw(&random_ends(&mut rng, n)), vec![])
+            }
+        };
+        let ends: Vec<f64> = pw.segments.iter().map(|s| s.end).collect();
         let alpha = alphabet(&ends, with_nan);
         sink.ev(json!({"ev":"new","ends":jbs(&ends)}));
         let mut ev = PiecewiseEvaluator::new(&pw.segments);
-        let len = 1 + rng.below(60) as usize;
+        let len = if replay.is_empty() { 1 + rng.below(60) as usize } else { replay.len() };
         let style = rng.below(4);
         let mut idx = rng.below(alpha.len() as u64) as i64;
-        for _ in 0..len {
-            let x = match style {
+        let mut asked = vec![];
+        for qi in 0..len {
+            let x = if !replay.is_empty() { replay[qi] } else { match style {
                 0 => *rng.pick(&alpha),
                 1 => {
                     // ping-pong / local moves through the alphabet sorted by value
@@ -384,12 +423,15 @@ pub fn drive_evaluator(seed: u64, sessions: usize, with_nan: bool, sink: &mut Si
                     let b = *rng.pick(&alpha);
                     if rng.below(4) != 0 { a.min(b) } else { a.max(b) }
                 }
-            };
+            } };
             let x = if x.is_nan() && !with_nan { 0.0 } else { x };
+            asked.push(x);
             let o = ev_query(&mut ev, x);
             let (did, _, _, dpan) = observe_direct(&pw, x);
             sink.ev(ev_event(x, &o, did, &dpan));
         }
+        drop(ev);
+        kept = Some((pw, asked));
     }
 }
 
@@ -571,28 +613,121 @@ pub fn drive_evalv(seed: u64, batches: usize, with_nan: bool, sink: &mut Sink) {
 
 // ===================================================================== C02 driver
 
+/// History stratum (hidden state keyed on an object's address, length or outer breakpoints would survive this): edit a
+/// piecewise function IN PLACE through its public fields, the way a caller may between two calls -- same buffer, same or
+/// smaller length.  `swap` also exchanges two pieces (only where pieces are logged in full, not for numbered probes).
+pub fn edit_in_place<T: Clone>(rng: &mut Rng, pw: &mut Piecewise<T>, swap: bool) {
+    let n = pw.segments.len();
+    if n == 0 {
+        return;
+    }
+    let ends: Vec<f64> = pw.segments.iter().map(|s| s.end).collect();
+    match rng.below(if swap { 7 } else { 6 }) {
+        0 if n >= 3 => {
+            // move ONE interior breakpoint; count, first and last breakpoint stay
+            let i = 1 + rng.below(n as u64 - 2) as usize;
+            let (lo, hi) = (ends[i - 1], ends[i + 1]);
+            let e = match rng.below(4) {
+                0 => lo,
+                1 => hi,
+                2 => lo / 2.0 + hi / 2.0,
+                _ => lo.next_up().min(hi),
+            };
+            if !e.is_nan() {
+                pw.segments[i].end = e.max(lo).min(hi); // halving subnormals rounds outside the bracket
+            }
+        }
+        1 if n >= 3 => {
+            // all interior breakpoints anew between the unchanged outer ones
+            let (lo, hi) = (ends[0], ends[n - 1]);
+            if lo.is_finite() && hi.is_finite() {
+                let mut v: Vec<f64> = (0..n - 2).map(|_| lo / 2.0 + hi / 2.0 + (hi / 2.0 - lo / 2.0) * (2.0 * rng.unit() - 1.0)).map(|e| e.max(lo).min(hi)).collect();
+                v.sort_by(|a, b| a.partial_cmp(b).unwrap());
+                for (k, e) in v.into_iter().enumerate() {
+                    pw.segments[k + 1].end = e;
+                }
+            }
+        }
+        2 => {
+            // the whole axis moved (order kept): x10, /10, or shifted right past the old last breakpoint
+            let f = *rng.pick(&[10.0, 0.1, 3.0]);
+            for s in pw.segments.iter_mut() {
+                s.end *= f;
+            }
+        }
+        3 if n > 1 => {
+            pw.segments.pop();
+        }
+        4 if n > 1 => {
+            let k = 1 + rng.below(n as u64 - 1) as usize;
+            pw.segments.truncate(k);
+        }
+        5 => {
+            // same length, same buffer, unrelated breakpoints
+            let v = random_ends(rng, n);
+            for (s, e) in pw.segments.iter_mut().zip(v) {
+                s.end = e;
+            }
+        }
+        6 if n >= 2 => {
+            let i = rng.below(n as u64) as usize;
+            let j = rng.below(n as u64) as usize;
+            let (a, b) = (pw.segments[i].poly.clone(), pw.segments[j].poly.clone());
+            pw.segments[i].poly = b;
+            pw.segments[j].poly = a;
+        }
+        _ => {
+            // duplicate a breakpoint onto its neighbour
+            if n >= 2 {
+                let i = rng.below(n as u64 - 1) as usize;
+                pw.segments[i].end = ends[i + 1];
+            }
+        }
+    }
+}
+
 pub fn drive_select(seed: u64, lists: usize, sink: &mut Sink) {
     let mut rng = Rng::new(seed);
     for _ in 0..lists {
         let n = if rng.below(20) == 0 { rng.long_len() } else { 1 + rng.size(4, 40, 8) as usize };
         let ends = random_ends(&mut rng, n);
-        let pw = probe_pw(&ends);
+        let mut pw = probe_pw(&ends);
         let mut xs = alphabet(&ends, true);
         for _ in 0..4 {
             xs.push(rng.float_exp(-40, 40));
         }
-        let mut segs = vec![];
-        let mut args = vec![];
-        let mut ok = true;
-        let mut pan = false;
-        for &x in &xs {
-            let (id, xb, vok, p) = observe_direct(&pw, x);
-            segs.push(id);
-            args.push(jbits(xb));
-            ok &= vok;
-            pan |= p.is_some();
+        // the object as built, then (one list in three) the SAME object edited in place a few times, queried with the
+        // old arguments and the new alphabet
+        let edits = if rng.below(3) == 0 { 1 + rng.below(3) } else { 0 };
+        for round in 0..=edits {
+            if round > 0 {
+                // the argument asked last before the edit is asked first after it (a remembered answer would be stale)
+                let carry = *xs.last().unwrap();
+                edit_in_place(&mut rng, &mut pw, false);
+                let now: Vec<f64> = pw.segments.iter().map(|s| s.end).collect();
+                xs.truncate(8);
+                xs.insert(0, carry);
+                xs.extend(alphabet(&now, true));
+            }
+            if edits > 0 {
+                let now: Vec<f64> = pw.segments.iter().map(|s| s.end).collect();
+                let a = alphabet(&now, false);
+                xs.push(*rng.pick(&a));
+            }
+            let ends: Vec<f64> = pw.segments.iter().map(|s| s.end).collect();
+            let mut segs = vec![];
+            let mut args = vec![];
+            let mut ok = true;
+            let mut pan = false;
+            for &x in &xs {
+                let (id, xb, vok, p) = observe_direct(&pw, x);
+                segs.push(id);
+                args.push(jbits(xb));
+                ok &= vok;
+                pan |= p.is_some();
+            }
+            sink.ev(json!({"ev":"select","ends":jbs(&ends),"xs":jbs(&xs),"segs":segs,"args":args,"valok":ok,"panic":pan}));
         }
-        sink.ev(json!({"ev":"select","ends":jbs(&ends),"xs":jbs(&xs),"segs":segs,"args":args,"valok":ok,"panic":pan}));
     }
 }
 
@@ -653,6 +788,40 @@ pub fn observe_merge(fe: &[f64], ge: &[f64], sub: bool) -> MergeObs {
             MergeObs { res, lanes_ok, panic: None }
         }
         (Err(m), _) | (_, Err(m)) => MergeObs { res: vec![], lanes_ok: false, panic: Some(m) },
+    }
+}
+
+/// History stratum for + and -: ONE pair of operand objects, merged, edited in place (one operand, then the other),
+/// merged again -- all on one watchdog thread, so anything the code remembers between calls (per thread, per address,
+/// per length, per outer breakpoint) is still there.  Returns (f ends, g ends, observation) per step.
+pub fn observe_merge_chain(fe: &[f64], ge: &[f64], sub: bool, seed: u64, steps: usize) -> Vec<(Vec<f64>, Vec<f64>, MergeObs)> {
+    let (fe, ge) = (fe.to_vec(), ge.to_vec());
+    let (fe0, ge0) = (fe.clone(), ge.clone());
+    let r = guarded_timeout(1000, move || {
+        let mut rng = Rng::new(seed);
+        let mut f = tag_pw(&fe);
+        let mut g = tag_pw(&ge);
+        let mut out = vec![];
+        for step in 0..steps {
+            if step > 0 {
+                if step % 2 == 1 { edit_in_place(&mut rng, &mut f, false) } else { edit_in_place(&mut rng, &mut g, false) }
+            }
+            let fe: Vec<f64> = f.segments.iter().map(|s| s.end).collect();
+            let ge: Vec<f64> = g.segments.iter().map(|s| s.end).collect();
+            let r = guarded(|| if sub { &f - &g } else { &f + &g });
+            let obs = match r {
+                Ok(r) => MergeObs { res: r.segments.iter().map(|s| (s.end, s.poly.a, s.poly.b, s.poly.op)).collect(), lanes_ok: true, panic: None },
+                Err(m) => MergeObs { res: vec![], lanes_ok: false, panic: Some(m) },
+            };
+            out.push((fe, ge, obs));
+        }
+        out
+    });
+    match r {
+        Ok(v) => v,
+        // the chain did not return (or panicked outside the guarded calls): a panic-class outcome for the pair as given
+        Err(m) => vec![(fe0.clone(), ge0.clone(), MergeObs { res: vec![], lanes_ok: false, panic: None }),
+                       (fe0, ge0, MergeObs { res: vec![], lanes_ok: false, panic: Some(m) })],
     }
 }
 
@@ -767,6 +936,24 @@ pub fn drive_merge(seed: u64, pairs: usize, sink: &mut Sink) {
                 "lanes":o.lanes_ok,"panic":o.panic.is_some(),"xs":jbs(&xs)}));
             if hung() {
                 return; // the event above records the non-return as a panic-class outcome; nothing more can be run
+            }
+        }
+        if rng.below(3) == 0 && fe.len() < 64 && ge.len() < 64 {
+            // tag pieces are numbered, so a popped or truncated operand stays consistent with its numbering
+            let sub = rng.bool();
+            for (f2, g2, o) in observe_merge_chain(&fe, &ge, sub, rng.u64(), 4).into_iter().skip(1) {
+                let mut xs = alphabet(&f2, false);
+                for x in alphabet(&g2, false) {
+                    if !xs.iter().any(|y| y.to_bits() == x.to_bits()) {
+                        xs.push(x);
+                    }
+                }
+                sink.ev(json!({"ev":"merge","op":if sub {2} else {1},"f":jbs(&f2),"g":jbs(&g2),
+                    "res":o.res.iter().map(|t| json!([jb(t.0), t.1, t.2, t.3])).collect::<Vec<_>>(),
+                    "lanes":o.lanes_ok,"panic":o.panic.is_some(),"xs":jbs(&xs)}));
+            }
+            if hung() {
+                return;
             }
         }
     }
